@@ -139,6 +139,23 @@ func init() {
 		},
 	})
 	register(&Prop{
+		ID:          "C20",
+		HarnessDirs: []string{"c20"},
+		Pkg:         "github.com/cloudwego/thriftgo/generator/golang",
+		Diff:        []string{"D_C20_1"},
+		Prepare:     prepareC20,
+		Functions:   []string{"golang.(*CodeUtils).HandleOptions", "golang.checkBool", "golang.(*CodeUtils).validateOptions", "golang.Features.params (reflection, via the engine's reflect model)", "golang.(*param).match", "golang.(*CodeUtils).UseTemplate/SetNamingStyle/UsePackage", "styles.NewNamingStyle"},
+		Bounds:      "every documented boolean option x value string of 0..5 FREE bytes (and the bare form); ordered pairs (quick: all pairs involving names that are prefixes of one another plus a 1/5 sample, thorough: all pairs) x {bare,=true,=false}^2; each option at a free position among two freely chosen other options with free values; naming_style/template/use_package with a free value of 0..8 bytes",
+		Assumptions: []string{"the documented defaults are parsed from /repo/README.md at check time", "which Features field an option switches is a table in the harness written from the README descriptions", "reflect.TypeOf/ValueOf/Field/Tag/IsZero/Elem/SetBool are modelled by the engine", "thriftgo -h text and flag parsing are outside"},
+		Harnesses: []Harness{
+			{Func: "H_C20_documented", Covers: []string{"end"}},
+			{Func: "H_C20_value", Quick: c20ValueTuples(3), Thorough: c20ValueTuples(5), Covers: []string{"accepted", "rejected", "invalid"}},
+			{Func: "H_C20_pair", Quick: c20PairTuples(true), Thorough: c20PairTuples(false), Covers: []string{"accepted", "invalid"}},
+			{Func: "H_C20_triple", Quick: [][]int64{{8}, {27}, {28}}, Thorough: rng(0, 48), Covers: []string{"accepted"}},
+			{Func: "H_C20_keyed", Quick: tuples(seq(0, 2), seq(0, 8)), Thorough: tuples(seq(0, 2), seq(0, 10)), Covers: []string{"accepted", "rejected"}},
+		},
+	})
+	register(&Prop{
 		ID:          "C14",
 		HarnessDirs: []string{"c14"},
 		Pkg:         "github.com/cloudwego/thriftgo/fieldmask",
@@ -236,6 +253,31 @@ func c12Tuples(quick bool) [][]int64 {
 					r = append(r, []int64{k0, k1, k2, split})
 				}
 			}
+		}
+	}
+	return r
+}
+
+const c20NOpts = 49
+
+func c20ValueTuples(maxN int64) [][]int64 {
+	var r [][]int64
+	for i := int64(0); i < c20NOpts; i++ {
+		for n := int64(-1); n <= maxN; n++ {
+			r = append(r, []int64{i, n})
+		}
+	}
+	return r
+}
+
+func c20PairTuples(quick bool) [][]int64 {
+	var r [][]int64
+	for i := int64(0); i < c20NOpts; i++ {
+		for j := int64(0); j < c20NOpts; j++ {
+			if quick && (i*7+j)%5 != 0 && !(i >= 22 && i <= 32 && j >= 22 && j <= 32) {
+				continue
+			}
+			r = append(r, []int64{i, j})
 		}
 	}
 	return r
